@@ -209,6 +209,8 @@ def build(tree, placement=None, ntables=1, table_order="fwd", free_at=None, seqs
                 where += size
                 n_ins += 1
     for off, size, body in placed_tabs:
+        if len(img) < off + size:
+            img.extend(b"\0" * (off + size - len(img)))
         img[off:off + len(body)] = body
         oe.append((2, off, size, 1))
     high = []
